@@ -85,15 +85,16 @@ Allow(n) ==
   /\ allowed' = n /\ hist' = Append(hist, <<"allow", n>>)
   /\ UNCHANGED <<txF, cF, vF, committed, inmemPre, preAlh, tsize, cbuf, ext, pc, mode, gen, crashes, acked, everPre>>
 
-\* nothing on disk changes; the allowance is kept by the code, so only discards above it are modelled
+\* nothing on disk changes; the allowance granted for the discarded transactions is withdrawn
 Discard(since) ==
-  /\ mode = "open" /\ pc = 0 /\ since > committed /\ since <= inmemPre /\ (ext => allowed < since)
+  /\ mode = "open" /\ pc = 0 /\ since > committed /\ since <= inmemPre
+  /\ allowed' = IF allowed > since - 1 THEN since - 1 ELSE allowed
   /\ LET k == inmemPre + 1 - since   keep == Len(cbuf) - k IN
      /\ cbuf' = SubSeq(cbuf, 1, keep)
      /\ inmemPre' = since - 1
      /\ preAlh' = IF keep = 0 THEN (IF committed = 0 THEN Genesis ELSE View(cF)[committed].alh) ELSE cbuf[keep].alh
   /\ hist' = Append(hist, <<"discard", since>>)
-  /\ UNCHANGED <<txF, cF, vF, committed, tsize, allowed, ext, pc, mode, gen, crashes, acked, everPre>>
+  /\ UNCHANGED <<txF, cF, vF, committed, tsize, ext, pc, mode, gen, crashes, acked, everPre>>
 
 \* sync(), one physical step at a time
 SyncStep ==
